@@ -3,6 +3,7 @@ from __future__ import annotations
 
 import ast
 
+from . import generic
 from sa.absint import Evaluator, all_effects
 from sa.index import AnalysisError
 from sa.terms import App, Const, Ref, Sym, cases, subterms
@@ -54,8 +55,7 @@ def digest_forms(ctx):
     fq = ctx.fq(fi)
     outs = ev.outcomes(fi)
     rets = [o for o in outs if o.kind == "return"]
-    if len(rets) != 1:
-        raise AnalysisError(f"{fq}: expected one normal outcome")
+    rets = generic.sole_outcome(ctx, rets, f"{fq}: expected one normal outcome")
     o = rets[0]
     stores = {}
     for e, g in _with_guards(o.effects):
@@ -177,8 +177,7 @@ def payload_forms(ctx):
     fq = ctx.fq(fi)
     outs = ev.outcomes(fi)
     rets = [o for o in outs if o.kind == "return"]
-    if len(rets) != 1:
-        raise AnalysisError(f"{fq}: expected one normal outcome")
+    rets = generic.sole_outcome(ctx, rets, f"{fq}: expected one normal outcome")
     loops = [e for e in rets[0].effects if isinstance(e, App) and e.op == "eff:loop"]
     if len(loops) != 1:
         raise AnalysisError(f"{fq}: loop not recognised")
